@@ -82,6 +82,7 @@ type Opts struct {
 	ConnKeys    []string // XRD connectionSecretKeys
 	FnFaults    bool
 	LagClaims   bool // claim controller's cache may serve stale claims
+	LagComposed bool // the engine cache may serve stale composed resources
 	DefaultCompositionRef bool
 }
 
@@ -393,8 +394,17 @@ func (w *W) NewProcess() {
 	mgrClient := simapi.NewClient(w.Store, s, w.Core, "core").WithIndexers(idx)
 	engClient := simapi.NewClient(w.Store, s, w.Core, "core").WithIndexers(idx)
 	var cached client.Client = engClient
+	var lag []schema.GroupKind
 	if w.Opts.LagClaims && w.Opts.Claims {
-		cached = engClient.Cached(simapi.NewView(ClaimGVK.GroupKind()))
+		lag = append(lag, ClaimGVK.GroupKind())
+	}
+	if w.Opts.LagComposed {
+		for _, g := range ComposedGVKs {
+			lag = append(lag, g.GroupKind())
+		}
+	}
+	if len(lag) > 0 {
+		cached = engClient.Cached(simapi.NewView(lag...))
 	}
 	w.Runner = xfn.NewPackagedFunctionRunner(mgrClient, xfn.WithInterceptorCreators(w.Fn))
 	w.runners = append(w.runners, w.Runner)
